@@ -40,7 +40,9 @@ class PauseTransparent(Monitor):
         status = post["status"]
 
         def v(kind, **sig):
-            return [{"kind": kind, "sig": sig, "detail": sig.pop("_detail", None)}]
+            d = sig.pop("_detail", None)
+            sig.setdefault("after_partial_join_rerun", sim.h["rejoin"])
+            return [{"kind": kind, "sig": sig, "detail": d}]
 
         if op == "req" and move[1] in PAUSE_REQ and res.exc is None and g["phase"] == 0:
             twin = ctx.fresh_pre()
@@ -81,11 +83,21 @@ class PauseTransparent(Monitor):
                     g["first_dispatch_after_resume"] = False
                     self.stats["resume_offers_compared"] += 1
                     twin.apply(["dispatch"], check_pure=False)
-                    held_back = sorted(json.dumps(a) for a in twin.h["inflight"] if a not in pre["h"]["inflight"])
-                    offered = sorted(json.dumps(a) for a in sim.h["inflight"] if a not in pre["h"]["inflight"])
-                    if held_back != offered:
+                    launched_by_twin = [a for a in twin.h["inflight"] if a not in pre["h"]["inflight"]]
+                    offered = [a for a in sim.h["inflight"] if a not in pre["h"]["inflight"]]
+                    # (iii) the resumed run launches only work the unpaused run launched as well, and all
+                    # plain (non-item) work that was held back, unless it is no longer running
+                    extra = [a for a in offered if a not in launched_by_twin]
+                    missing = [a for a in launched_by_twin if a not in offered and a[2] is None]
+                    # an item the unpaused run launched before a sibling item failed keeps its task open
+                    # there; the two runs are then not comparable step by step
+                    twin_ahead = any(a[2] is not None and a not in sim.h["inflight"] for a in twin.h["inflight"])
+                    if twin_ahead:
+                        extra, missing = [], []
+                    if extra or (missing and post["status"] in st.RUNNING_STATUSES):
                         return v("resume_did_not_release_held_work",
-                                 _detail={"twin_in_flight_not_in_main": held_back, "offered_on_resume": offered})
+                                 after_partial_join_rerun=sim.h["rejoin"] or twin.h["rejoin"],
+                                 _detail={"launched_by_unpaused_run": launched_by_twin, "offered_on_resume": offered})
                 else:
                     twin.apply(["dispatch"], check_pure=False)
         elif op in ("complete", "release"):
@@ -93,7 +105,15 @@ class PauseTransparent(Monitor):
             try:
                 idx = twin.h["inflight"].index(a)
             except ValueError:
-                return v("paused_run_completed_action_unknown_to_twin", _detail={"action": a})
+                if any(x[2] is not None and x not in sim.h["inflight"] for x in twin.h["inflight"]):
+                    # the unpaused run launched an item before a sibling item failed and still waits
+                    # for it: the two runs are no longer comparable (not a violation)
+                    g["phase"] = 3
+                    g["_twin"] = None
+                    g["twin_key"] = None
+                    return []
+                return v("paused_run_completed_action_unknown_to_twin", _detail={"action": a},
+                         after_partial_join_rerun=sim.h["rejoin"] or twin.h["rejoin"])
             tm = list(move)
             tm[1] = idx
             tm[4] = list(a)
@@ -114,7 +134,8 @@ class PauseTransparent(Monitor):
         if status in (st.FAILED, st.CANCELED, st.SUCCEEDED):
             return []
         if status == st.PAUSED and infl:
-            return [{"kind": "paused_with_action_in_flight", "sig": {}, "detail": list(infl)}]
+            return [{"kind": "paused_with_action_in_flight",
+                     "sig": {"after_partial_join_rerun": sim.h["rejoin"]}, "detail": list(infl)}]
         if status == st.PAUSING and not infl and not sim.h["held"]:
             return [{"kind": "pausing_with_nothing_in_flight",
                      "sig": {"retrying": any(r.get("status") == "retrying" for r in post["state"]["sequence"])},
@@ -130,17 +151,32 @@ class PauseTransparent(Monitor):
         if not (g["phase"] == 2 or (g["phase"] == 1 and sim.status in (st.FAILED, st.SUCCEEDED, st.CANCELED))):
             return []
         twin = Sim.restore(self.scn, g["_twin"])
-        # let the twin launch anything it has not launched yet (nothing should be left)
+        # let the twin launch anything it has not launched yet
         twin.apply(["dispatch"], check_pure=False)
+        main_status = sim.status
+        if main_status in (st.FAILED, st.CANCELED):
+            # fail-fast may leave work unlaunched in one run only; the status must agree
+            if twin.h["inflight"]:
+                return []  # the unpaused run still waits for actions this history never reports
+            self.stats["twin_endings_compared"] += 1
+            if twin.status != main_status:
+                return [{"kind": "outcome_differs_from_unpaused_run",
+                         "sig": {"aspect": "status", "paused_run": main_status, "unpaused_run": twin.status,
+                                 "after_partial_join_rerun": sim.h["rejoin"] or twin.h["rejoin"]},
+                         "detail": {"twin_in_flight": twin.h["inflight"]}}]
+            return []
+        if main_status != st.SUCCEEDED:
+            return []
         if twin.h["inflight"]:
             return [{"kind": "outcome_differs_from_unpaused_run",
-                     "sig": {"aspect": "work_left_in_twin"},
+                     "sig": {"aspect": "work_left_in_twin",
+                             "after_partial_join_rerun": sim.h["rejoin"] or twin.h["rejoin"]},
                      "detail": {"twin_in_flight": twin.h["inflight"], "main_status": sim.status}}]
         self.stats["twin_endings_compared"] += 1
         a, b = outcome(sim), outcome(twin)
         if a != b:
             aspect = [k for k in ("status", "executed", "errors", "output") if a[k] != b[k]][0]
-            sig = {"aspect": aspect}
+            sig = {"aspect": aspect, "after_partial_join_rerun": sim.h["rejoin"] or twin.h["rejoin"]}
             if aspect == "status":
                 sig["paused_run"] = a["status"]
                 sig["unpaused_run"] = b["status"]
